@@ -695,6 +695,14 @@ void tokenize_cleanup()
                make_type(tmp);
                size_t num_sp = space_needed(tmp2, tmp);
 
+               // two words are never joined, whatever the options say: operator const char *
+               if (  num_sp == 0
+                  && CharTable::IsKw2(next->GetStr()[next->GetStr().size() - 1])
+                  && CharTable::IsKw1(tmp->GetStr()[0]))
+               {
+                  num_sp = 1;
+               }
+
                while (num_sp-- > 0)
                {
                   next->Str().append(" ");
